@@ -26,18 +26,19 @@ Print Assumptions C03_merge_labels.
    (start + t_i, what the detector held at the end of step i) -- one slice per readout, in order.
    Hypothesis on the image: the float round trip of the merge leaves it alone (see C03_image_exact). *)
 Theorem C03_slices :
-  forall (Scene Data : Type) (empty_scene : Scene) (scene_is_empty : Scene -> bool)
+  forall (Scene Data : Type) (empty_scene : Scene) (scene_is_empty : Scene -> bool) (copies : ckind -> bool)
          (c : config Scene Data) (d_init : det Scene Data),
+  slices_safe copies ->
   StronglySorted Z.lt (c_times c) ->
   image_stable (map view (ends_of empty_scene c d_init)) ->
-  exists t, exposure empty_scene scene_is_empty c d_init = Some t /\
+  exists t, exposure empty_scene scene_is_empty copies c d_init = Some t /\
     t_buckets t = combine (map (Z.add (c_start c)) (c_times c)) (map view (ends_of empty_scene c d_init)) /\
     List.length (t_buckets t) = List.length (c_times c) /\
     forall b, bucket_slices (t_buckets t) b =
       combine (map (Z.add (c_start c)) (c_times c))
               (map (fun d => get (view d) b) (ends_of empty_scene c d_init)).
 Proof.
-  intros. destruct (slices_faithful empty_scene scene_is_empty c d_init H H0) as [t [He [Hb Hl]]].
+  intros. destruct (slices_faithful empty_scene scene_is_empty copies c d_init H H0 H1) as [t [He [Hb Hl]]].
   exists t. split; [exact He|]. split; [exact Hb|]. split; [exact Hl|].
   intros b. rewrite Hb. unfold labels. rewrite bucket_slices_combine, map_map. reflexivity.
 Qed.
@@ -61,10 +62,11 @@ Print Assumptions C03_image_exact.
 
 (* ---- the image keeps the unsigned type the models wrote (no hypothesis on the values) *)
 Theorem C03_image_dtype :
-  forall (Scene Data : Type) (empty_scene : Scene) (scene_is_empty : Scene -> bool)
+  forall (Scene Data : Type) (empty_scene : Scene) (scene_is_empty : Scene -> bool) (copies : ckind -> bool)
          (c : config Scene Data) (d_init : det Scene Data) (t_ : dtype) tr,
+  slices_safe copies ->
   Forall (fun d => image_has_dtype t_ (d_snap d)) (ends_of empty_scene c d_init) ->
-  exposure empty_scene scene_is_empty c d_init = Some tr ->
+  exposure empty_scene scene_is_empty copies c d_init = Some tr ->
   Forall (fun ls => image_has_dtype t_ (snd ls)) (t_buckets tr).
 Proof. exact @image_dtype_kept. Qed.
 Print Assumptions C03_image_dtype.
@@ -98,10 +100,10 @@ Print Assumptions C03_slices_u64_refuted.
 (* ---- both layouts carry the same values; the layout only chooses the path of the bucket node (a
    non-empty scene forces the hierarchical one) *)
 Theorem C03_layouts_agree :
-  forall (Scene Data : Type) (empty_scene : Scene) (scene_is_empty : Scene -> bool)
+  forall (Scene Data : Type) (empty_scene : Scene) (scene_is_empty : Scene -> bool) (copies : ckind -> bool)
          (c : config Scene Data) (d_init : det Scene Data),
-  match exposure empty_scene scene_is_empty (with_layout c Flat) d_init,
-        exposure empty_scene scene_is_empty (with_layout c Hier) d_init with
+  match exposure empty_scene scene_is_empty copies (with_layout c Flat) d_init,
+        exposure empty_scene scene_is_empty copies (with_layout c Hier) d_init with
   | Some a, Some b =>
       t_buckets a = t_buckets b /\ t_inter a = t_inter b /\ t_scene a = t_scene b /\
       t_data a = t_data b /\ t_bucket_path b = "/bucket"%string /\
@@ -114,9 +116,9 @@ Print Assumptions C03_layouts_agree.
 
 (* ---- scene and processed data are what the detector holds after the last step, untouched *)
 Theorem C03_scene_data_passthrough :
-  forall (Scene Data : Type) (empty_scene : Scene) (scene_is_empty : Scene -> bool)
+  forall (Scene Data : Type) (empty_scene : Scene) (scene_is_empty : Scene -> bool) (copies : ckind -> bool)
          (c : config Scene Data) (d_init : det Scene Data) tr,
-  exposure empty_scene scene_is_empty c d_init = Some tr ->
+  exposure empty_scene scene_is_empty copies c d_init = Some tr ->
   let final := last (ends_of empty_scene c d_init) (reset empty_scene (c_shape c) false d_init) in
   t_scene tr = d_scene final /\ t_data tr = d_data final.
 Proof. exact @scene_data_passthrough. Qed.
@@ -125,10 +127,10 @@ Print Assumptions C03_scene_data_passthrough.
 (* ---- debug mode: the result without the debug nodes is the result of the run without debug, and the
    detector states do not depend on the flag *)
 Theorem C03_debug_conservative :
-  forall (Scene Data : Type) (empty_scene : Scene) (scene_is_empty : Scene -> bool)
+  forall (Scene Data : Type) (empty_scene : Scene) (scene_is_empty : Scene -> bool) (copies : ckind -> bool)
          (c : config Scene Data) (d_init : det Scene Data),
-  exposure empty_scene scene_is_empty (with_debug c false) d_init
-  = option_map strip_debug (exposure empty_scene scene_is_empty (with_debug c true) d_init)
+  exposure empty_scene scene_is_empty copies (with_debug c false) d_init
+  = option_map strip_debug (exposure empty_scene scene_is_empty copies (with_debug c true) d_init)
   /\ forall b, ends_of empty_scene (with_debug c b) d_init = ends_of empty_scene c d_init.
 Proof.
   intros. split; [apply debug_conservative|]. intros b. apply debug_does_not_touch_states.
@@ -162,13 +164,13 @@ Definition C03_debug_nodes_full : Prop :=
   forall (c : config payload payload),
   let d0 := reset [] (c_shape c) false pdet0 in
   let n := List.length (c_times c) in
-  map n_vars (debug_steps [] c 0 n d0 None) = map n_vars (ideal_steps [] c 0 n d0).
+  map n_vars (debug_steps [] copies_as_coded c 0 n d0 None) = map n_vars (ideal_steps [] c 0 n d0).
 
 Definition wit_models : list pmodel :=
   [ {| pm_group := "photon_collection"; pm_name := "wp";
-       pm_actions := [AWrite {| w_bucket := Photon; w_dt := F64; w_waves := 0; w_per_step := [1; 5] |}] |};
+       pm_actions := [AWrite {| w_bucket := Photon; w_dt := F64; w_waves := 0; w_mode := WAssign; w_per_step := [1; 5] |}] |};
     {| pm_group := "charge_collection"; pm_name := "wx";
-       pm_actions := [AWrite {| w_bucket := Pixel; w_dt := F64; w_waves := 0; w_per_step := [3; 9] |}] |} ].
+       pm_actions := [AWrite {| w_bucket := Pixel; w_dt := F64; w_waves := 0; w_mode := WAssign; w_per_step := [3; 9] |}] |} ].
 
 Definition wit_config : config payload payload :=
   {| c_shape := [1; 2]; c_start := 0; c_times := [8; 16]; c_nondestr := false; c_layout := Flat;
@@ -182,14 +184,14 @@ Print Assumptions C03_debug_nodes_refuted.
    rewrites the earlier record (both nodes show the final charge 5 + 100) *)
 Definition alias_models : list pmodel :=
   [ {| pm_group := "charge_generation"; pm_name := "c1";
-       pm_actions := [AWrite {| w_bucket := Charge; w_dt := F64; w_waves := 0; w_per_step := [5] |}] |};
+       pm_actions := [AWrite {| w_bucket := Charge; w_dt := F64; w_waves := 0; w_mode := WIAdd; w_per_step := [5] |}] |};
     {| pm_group := "charge_generation"; pm_name := "c2";
-       pm_actions := [AWrite {| w_bucket := Charge; w_dt := F64; w_waves := 0; w_per_step := [100] |}] |} ].
+       pm_actions := [AWrite {| w_bucket := Charge; w_dt := F64; w_waves := 0; w_mode := WIAdd; w_per_step := [100] |}] |} ].
 
 Example C03_debug_charge_alias_witness :
   let c := {| c_shape := [1; 1]; c_start := 0; c_times := [8]; c_nondestr := false; c_layout := Flat;
               c_debug := true; c_models := map (mdl_of [1; 1]) alias_models |} in
-  map (fun n => map (fun ba => a_vals (snd ba)) (n_vars n)) (debug_steps [] c 0 1 (reset [] [1; 1] false pdet0) None)
+  map (fun n => map (fun ba => a_vals (snd ba)) (n_vars n)) (debug_steps [] copies_as_coded c 0 1 (reset [] [1; 1] false pdet0) None)
     = [[[105]]; [[105]]] /\
   map (fun n => map (fun ba => a_vals (snd ba)) (n_vars n)) (ideal_steps [] c 0 1 (reset [] [1; 1] false pdet0))
     = [[[5]]; [[105]]].
@@ -199,11 +201,11 @@ Proof. vm_compute. split; reflexivity. Qed.
    not trivial *)
 Definition ex_models : list pmodel :=
   [ {| pm_group := "photon_collection"; pm_name := "wp";
-       pm_actions := [AWrite {| w_bucket := Photon; w_dt := F32; w_waves := 2; w_per_step := [1; 20; 40] |}] |};
+       pm_actions := [AWrite {| w_bucket := Photon; w_dt := F32; w_waves := 2; w_mode := WAssign; w_per_step := [1; 20; 40] |}] |};
     {| pm_group := "charge_collection"; pm_name := "wx";
-       pm_actions := [AWrite {| w_bucket := Pixel; w_dt := F64; w_waves := 0; w_per_step := [3; 9; 27] |}] |};
+       pm_actions := [AWrite {| w_bucket := Pixel; w_dt := F64; w_waves := 0; w_mode := WAssign; w_per_step := [3; 9; 27] |}] |};
     {| pm_group := "readout_electronics"; pm_name := "wi";
-       pm_actions := [AWrite {| w_bucket := Image; w_dt := U16; w_waves := 0; w_per_step := [100; 200; 300] |};
+       pm_actions := [AWrite {| w_bucket := Image; w_dt := U16; w_waves := 0; w_mode := WAssign; w_per_step := [100; 200; 300] |};
                       AData "/probe/k" [7; 8; 9]] |} ].
 
 Definition ex_config (l : layout) (dbg : bool) : config payload payload :=
@@ -213,7 +215,7 @@ Definition ex_config (l : layout) (dbg : bool) : config payload payload :=
 Example C03_hyps_satisfiable :
   StronglySorted Z.lt (c_times (ex_config Flat true)) /\
   image_uniform (map view (ends_of [] (ex_config Flat true) pdet0)) /\
-  (exists t, exposure [] payload_is_empty (ex_config Flat true) pdet0 = Some t /\
+  (exists t, exposure [] payload_is_empty copies_as_coded (ex_config Flat true) pdet0 = Some t /\
      bucket_slices (t_buckets t) Image =
        [(12, Some {| a_dt := U16; a_shape := [1; 2]; a_vals := [100; 101] |});
         (20, Some {| a_dt := U16; a_shape := [1; 2]; a_vals := [200; 201] |});
